@@ -33,6 +33,10 @@ CLAIMED = {
             "Kernel-checked theorems over the sequential model of SourceView (get_line with its processed_until/lines cache, line_count, lines(), get_line_slice): for every byte text and every finite sequence of requests issued before, get_line(i) returns the i-th piece of the text split at CRLF, LF or lone CR (nothing past the end) and never panics or hangs (c15_get_line, c15_inv, c15_line_starts), line_count is the number of pieces (c15_line_count), the iterator yields all pieces in order (c15_lines_iter), every request sequence completes (c15_no_panic), and for valid UTF-8 text get_line_slice(l, c, n) returns exactly the characters whose UTF-16 extent meets [c, c+n) - whole surrogate pairs at the end included - and nothing when the line has fewer than c+n units, for every column that is not strictly inside a surrogate pair, with no bound on c or n (c15_slice); c15_requests: a whole request sequence is answered by the stateless specification. Tied to the code by a differential run: all texts over {a, e-acute, astral, LF, CR} up to length 4 (7-8 thorough) x request orders (late line first, missing before present, count before/after, repeats) x all (line, col, span) triples incl. u32::MAX.",
             "Trusted: Lean kernel, models lean/SmVerif/Model/{SourceView,SourceViewSlice}.lean, harness/driver; std str::chars / len_utf8 / len_utf16 / str::get as modelled; 64-bit usize. A column strictly inside a surrogate pair: the property text does not settle whether the cut pair belongs to the slice (the code starts after it; c15_slice_midpair states exactly what it returns, c15_midpair_witness the difference to the inclusive reading); such cases are compared impl-vs-model only (op sv.corr) and never raise a spec alarm. Hypotheses visible in the theorems: fewer than 2^32 lines (u32 counters of line_count / Lines) - untestable (needs a 4 GiB text).",
             "Lean 4 proof (invariant over request sequences, UTF-8/UTF-16 decoding lemmas) + exhaustive small-scope differential correspondence"),
+    "C10": ("7/C10",
+            "Kernel-checked theorems over the model of SourceMap::adjust_mappings (create_ranges with its sort, the two-pointer sweep, the i32 displacement arithmetic with explicit overflow, the final sort) against a specification written from the property text (stretch = from a token to the next token or end of line; one token per pair of stretches with non-empty overlap, at the start of the overlap moved by the adjustment token's generated-minus-original displacement, carrying the original token's data; result ordered): c10_exact (for all inputs with coordinates < 2^30, duplicates included, the result is the position-sort of one token per overlapping (adjustment range, original range) pair), c10_sound, c10_complete_once, c10_eq_spec / c10_eq_spec_canonical / c10_eq_spec_exact (equal to the specification when no two tokens share a key on either side), c10_spec_no_truncation, c10_untouched (sources, names, contents, root, file, ignore list, debug id), c10_sorted (all inputs), c10_safe (no panic below 2^30). c10_dup_counterexample shows the distinct-keys hypothesis is necessary on both sides: that is the open finding F16. Tied to the code by a differential run: all pairs of multisets of <= 3 tokens on a 2x4 grid x 4 displacement patterns (thorough), random maps up to 30x30 tokens with duplicates on either side, adjustment in any order, multi-line displacement, coordinates around 2^30/2^31/2^32 (impl-vs-model only).",
+            "Trusted: Lean kernel, model lean/SmVerif/Model/Adjust.lean, harness/driver; sort_unstable modelled as a stable sort (holds below 21 elements and for ordered input: longer lists with tied keys are handed over pre-ordered). KNOWN FINDING F16 (open, listed in known_findings.json by failure class): with a duplicated position on either side the code emits a token for the EMPTY stretch of every duplicate but the last when that position lies strictly inside the other side's stretch (and not when it coincides with its start) - the property allows one token per NON-empty overlap; the narrow class (duplicated key + implementation equal to the validated model + only extra tokens) is reported as KNOWN-FINDING, anything else is a violation. Not repaired: dropping empty ranges makes the crate's own test_adjust_mappings_injection fixtures fail. Outside the quantifier: for coordinates >= 2^31 the i32 casts overflow (panic with overflow checks) although the exact result is representable.",
+            "Lean 4 proof (two-pointer sweep invariant, permutation with a declarative overlap specification) + exhaustive small-scope differential correspondence"),
 }
 
 PENDING_REASON = "not claimed yet: model/theorems for this property are still being built (see DESIGN.md section 7); no check is registered rather than registering an unsound one"
